@@ -430,27 +430,31 @@ def requirements(rec, space, level, cont):
                 continue                      # owned DoFs only
             if level == 0:
                 if cont[fld]:
-                    res.append((fld, 0, "annexed DoFs read in a loop to "
-                                        "last_dof_annexed"))
+                    res.append((fld, 0, "annexed_dof",
+                                "annexed DoFs read in a loop to "
+                                "last_dof_annexed"))
                 continue
-            res.append((fld, level, f"read in a loop to dof_halo({level})"))
+            res.append((fld, level, "dofhalo",
+                        f"read in a loop to dof_halo({level})"))
             continue
         if arg["stencil"]:
-            res.append((fld, level + arg["extent"],
+            res.append((fld, level + arg["extent"], "stencil",
                         f"stencil({arg['stencil']}) extent "
                         f"{arg['extent']} in a loop to depth {level}"))
         elif level >= 1:
             if acc == "gh_inc":
                 need = level - 1
                 if need >= 1 or cont[fld]:
-                    res.append((fld, need, f"gh_inc in a loop to depth "
-                                           f"{level}"))
+                    res.append((fld, need, "gh_inc",
+                                f"gh_inc in a loop to depth {level}"))
             else:
-                res.append((fld, level, f"{acc} in a loop to depth {level}"))
+                res.append((fld, level, acc,
+                            f"{acc} in a loop to depth {level}"))
         else:
             if cont[fld] and not annexed_exception(rec):
-                res.append((fld, 0, f"annexed DoFs of a continuous field "
-                                    f"({acc}) in a loop over owned cells"))
+                res.append((fld, 0, "annexed_cell",
+                            f"annexed DoFs of a continuous field "
+                            f"({acc}) in a loop over owned cells"))
     return res
 
 
@@ -512,7 +516,7 @@ def admissible(events, recs, spec, mesh_depth):
             if evt["bound"] == "halo" and not 1 <= level <= mesh_depth:
                 return f"loop depth {level}"
             for call in evt["calls"]:
-                for _, need, _ in requirements(recs[call["rec"]], space,
+                for _, need, _, _ in requirements(recs[call["rec"]], space,
                                                level, cont):
                     if need > mesh_depth:
                         return f"access to depth {need}"
@@ -551,7 +555,7 @@ def execute(events, recs, spec, mesh_depth, init):
     def check_flags(where):
         for fld in sorted(pending):
             if flags[fld] > max(truth[fld], 0):
-                return ("b", f"after the loop(s) before {where}: field "
+                return ("b:flags", f"after the loop(s) before {where}: field "
                         f"f{fld} is flagged clean to depth {flags[fld]} but "
                         f"is only correct to depth {max(truth[fld], 0)}")
         pending.clear()
@@ -562,7 +566,7 @@ def execute(events, recs, spec, mesh_depth, init):
         if kind in ("dirty", "clean"):
             fld = fidx(evt["field"])
             if fld in inflight:
-                return ("c", f"flags of f{fld} changed between "
+                return ("c:pairing", f"flags of f{fld} changed between "
                         f"halo_exchange_start and _finish (event {num})")
             if kind == "dirty":
                 flags[fld] = 0
@@ -590,22 +594,22 @@ def execute(events, recs, spec, mesh_depth, init):
             run = (not evt["guard"]) or dep > flags[fld]
             if evt["mode"] == "sync":
                 if fld in inflight:
-                    return ("c", f"halo exchange of f{fld} while an "
+                    return ("c:pairing", f"halo exchange of f{fld} while an "
                             f"asynchronous one is in flight")
                 if run:
                     flags[fld] = max(flags[fld], dep)
                     truth[fld] = max(truth[fld], dep)
             elif evt["mode"] == "start":
                 if fld in inflight:
-                    return ("c", f"second halo_exchange_start of f{fld}")
+                    return ("c:pairing", f"second halo_exchange_start of f{fld}")
                 inflight[fld] = (dep, run)
             else:
                 if fld not in inflight:
-                    return ("c", f"halo_exchange_finish of f{fld} without "
+                    return ("c:pairing", f"halo_exchange_finish of f{fld} without "
                             f"start")
                 dep0, run0 = inflight.pop(fld)
                 if dep0 != dep or run0 != run:
-                    return ("c", f"halo_exchange_finish of f{fld} "
+                    return ("c:pairing", f"halo_exchange_finish of f{fld} "
                             f"(depth {dep}, executed {run}) does not match "
                             f"its start (depth {dep0}, executed {run0})")
                 if run:
@@ -622,7 +626,8 @@ def execute(events, recs, spec, mesh_depth, init):
             raise DomainError(f"loop depth {level}")
         for call in evt["calls"]:
             rec = recs[call["rec"]]
-            for fld, need, why in requirements(rec, space, level, cont):
+            for fld, need, key, why in requirements(rec, space, level,
+                                                    cont):
                 if need > mesh_depth:
                     raise DomainError(f"access to depth {need}")
                 if truth[fld] < need:
@@ -633,22 +638,25 @@ def execute(events, recs, spec, mesh_depth, init):
                             f"correct to depth {truth[fld]}")
                     want = ("correct annexed DoFs" if need == 0 else
                             f"a halo correct to depth {need}")
-                    return ("a", f"{rec['name']} needs {want} of f{fld} "
+                    return ("a:" + key,
+                            f"{rec['name']} needs {want} of f{fld} "
                             f"({why}) but the halo is {have}")
             for arg in rec["args"]:
                 if arg["acc"] != "gh_read" and arg["f"] in inflight:
-                    return ("c", f"{rec['name']} writes f{arg['f']} between "
+                    return ("c:write_in_flight",
+                            f"{rec['name']} writes f{arg['f']} between "
                             f"halo_exchange_start and _finish")
         for call in evt["calls"]:
             rec = recs[call["rec"]]
             for fld, new in effects(rec, space, level, cont, truth).items():
                 if new is None:
-                    return ("a", f"{rec['name']} increments the continuous "
+                    return ("a:inc_owned",
+                            f"{rec['name']} increments the continuous "
                             f"field f{fld} in a loop over owned cells only")
                 truth[fld] = new
                 pending.add(fld)
     if inflight:
-        return ("c", f"halo_exchange_start of {sorted(inflight)} without "
+        return ("c:pairing", f"halo_exchange_start of {sorted(inflight)} without "
                 f"finish")
     pending.update(range(nfld))
     fail = check_flags("the end of the invoke")
@@ -657,7 +665,7 @@ def execute(events, recs, spec, mesh_depth, init):
     if annexed_cfg:
         for fld in range(nfld):
             if cont[fld] and truth[fld] < 0:
-                return ("b", f"COMPUTE_ANNEXED_DOFS: annexed DoFs of f{fld} "
+                return ("b:annexed_invariant", f"COMPUTE_ANNEXED_DOFS: annexed DoFs of f{fld} "
                         f"are incorrect at the end of the invoke")
     return None
 
